@@ -11,7 +11,7 @@ import (
 
 type genState struct {
 	g    *vh.Gen
-	adds [7]int
+	adds [20]int
 	ntok int
 }
 
@@ -123,6 +123,10 @@ func gen(g *vh.Gen) {
 	// the cap shrinks between runs: the next delivery evicts several messages at once
 	emit(0, []string{a(0, 1), a(0, 2), a(0, 3), a(0, 4), "C.2", a(0, 5), "R"})
 	emit(3, []string{a(1, 1), a(1, 2), a(1, 3), "X", "C.1", a(1, 4), "C.0", a(1, 5)})
+	// odd mailbox names across restarts: names differing only in case ("ALICE" = 8, "alice" = 9) are two mailboxes
+	emit(0, []string{a(7, 1), a(8, 2), a(9, 3), a(8, 4), "X", "v", "r.8.0", a(7, 5), "t", "v", "R", a(9, 6), "s.9.0", "X", "v"})
+	emit(2, []string{a(13, 1), a(14, 2), a(13, 3), a(13, 4), "R", a(14, 5), "v", "X", "r.13.2", "p.14", "v"})
+	emit(0, []string{a(15, 1), a(16, 2), a(17, 3), a(18, 4), a(19, 5), a(10, 6), a(11, 7), a(12, 8), "X", "v", "t", "v", "R", a(19, 9), "r.19.0", "v"})
 	// restart with large on-disk structures: an index of about 1.4 MiB (12 messages x 4000 recipients), one of about
 	// 70 KiB; thorough: about 4 MiB, many plain messages, bodies of 1 MiB and 32 MiB
 	g.Emit("big", "0", pool, "12", "4000", "4")
@@ -157,7 +161,7 @@ func gen(g *vh.Gen) {
 	for i := 0; i < g.N(200, 5000); i++ {
 		s := &genState{g: g}
 		cap := []int{0, 0, 1, 2, 3}[g.Intn(5)]
-		mbs := [][]int{{0}, {0, 1}, {0, 2, 3}, {0, 1, 2, 3}}[g.Intn(4)]
+		mbs := [][]int{{0}, {0, 1}, {0, 2, 3}, {0, 1, 2, 3}, {7, 8, 9}, {9, 10, 11, 12, 0}, {13, 14, 15, 16}, {17, 18, 19, 8}}[g.Intn(8)]
 		var ops []string
 		for j, n := 0, 2+g.Intn(9); j < n; j++ {
 			if g.Chance(0.25) {
@@ -178,7 +182,7 @@ func gen(g *vh.Gen) {
 	for i := 0; i < g.N(40, 1000); i++ {
 		s := &genState{g: g}
 		cap := []int{0, 0, 0, 2, 3}[g.Intn(5)]
-		mbs := [][]int{{0}, {0, 1}, {0, 1, 2, 3}}[g.Intn(3)]
+		mbs := [][]int{{0}, {0, 1}, {0, 1, 2, 3}, {7, 8, 9}, {12, 13, 14, 16}, {15, 17, 18, 19}}[g.Intn(6)]
 		var ops []string
 		first := mbs[g.Intn(len(mbs))]
 		for seg, nseg := 0, 2+g.Intn(3); seg < nseg; seg++ {
